@@ -214,6 +214,12 @@ def judge(program, foreign_le=False):
         blobs.append(('reference-output-without-line_endings',
                       spec.ref_serialize(program, omit_detected_le=True)))
 
+    if foreign_le:
+        res = numeric_own_encoding(blobs[1][1])
+
+        if res is not None:
+            return res
+
     for label, blob in blobs:
         recs, err = sut.read_records(blob)
 
@@ -233,6 +239,52 @@ def judge(program, foreign_le=False):
 
         if res is not None:
             return 'reader-' + res[0], '%s: %s' % (label, res[1])
+
+    return None
+
+
+NUMERIC_NAMES = (b'0', b'00', b'-0', b'7')
+
+
+def numeric_own_encoding(blob):
+    """A section's own encoding option wins even when it names nothing
+    usable: `encoding=0` on a text section under containers with real
+    encodings must be refused, never decoded with an ancestor's."""
+    ns = sut.load()
+    parsed, ref_err = spec.ref_parse(blob)
+
+    if ref_err is not None:
+        raise sut.HarnessError('reference bytes not parsed: %r' % (ref_err,))
+
+    for idx, rec in enumerate(parsed):
+        if spec.kind_of(rec['section']) not in ('preamble', 'meta') or \
+                'encoding' not in rec['options']:
+            continue
+
+        hstart, cstart, _cend = rec['span']
+        header = blob[hstart:cstart]
+        own = b'encoding=' + str(rec['options']['encoding']).encode('ascii')
+
+        if header.count(own) != 1:
+            continue
+
+        for name in NUMERIC_NAMES:
+            mutated = (blob[:hstart] +
+                       header.replace(own, b'encoding=' + name) +
+                       blob[cstart:])
+            recs, err = sut.read_records(mutated)
+
+            if err is None or len(recs) > idx:
+                return ('numeric-own-encoding-accepted',
+                        'section %d (%s) declaring encoding=%s: %d records, '
+                        'error %r' % (idx, rec['section'],
+                                      name.decode('ascii'), len(recs), err))
+
+            if not isinstance(err, ns.DiffXParseError):
+                return ('numeric-own-encoding-wrong-exception:%s'
+                        % type(err).__name__, repr(err))
+
+        break       # one section per history is enough
 
     return None
 
